@@ -1883,6 +1883,7 @@ representation_error:
 
 cleanup:
     free(value);
+    lyd_ctx_forget_subtree((struct lyd_ctx *)lydctx, node);
     lyd_free_tree(node);
     return rc;
 }
